@@ -65,8 +65,7 @@ def nontrivial(case):
 
 # ------------------------------------------------------------------ (M) and case emission
 def _mc(size):
-    return tlc.model_check("MC_Cli", cfg="MC_Cli.cfg", env={"VT_DECL": "all", "VT_SIZE": size},
-                           workers=max(2, tlc.NCPU // 4), timeout=1500)
+    return tlc.model_check("MC_Cli", cfg="MC_Cli.cfg", env={"VT_DECL": "all", "VT_SIZE": size}, timeout=1500)
 
 
 def _emit(size, d):
@@ -206,7 +205,7 @@ def run(rep):
     devs = {f["deviation"]: f["id"] for f in findings if f["deviation"] in KNOWN_DEVS}
 
     # (M) and the emission of every case run side by side (separate TLC processes)
-    with ThreadPoolExecutor(max_workers=5) as ex:
+    with ThreadPoolExecutor(max_workers=max(1, min(5, tlc.NCPU))) as ex:
         fm = ex.submit(_mc, size)
         fe = [ex.submit(_emit, size, d) for d in range(4)]
         mc = fm.result()
@@ -216,8 +215,8 @@ def run(rep):
     cases = []
     for r, cs in emitted:
         cases += cs
-    if len(cases) != mc.distinct:
-        raise tlc.MachineryError(f"emitted {len(cases)} cases but the model checker saw {mc.distinct}")
+    if 2 * len(cases) != mc.distinct:      # (M) has two states per case: before and after the run
+        raise tlc.MachineryError(f"emitted {len(cases)} cases but the model checker saw {mc.distinct} states")
     rep.extra["tlc_emission"] = dict(runs=4, cases=len(cases), wall_s=round(max(r.wall_s for r, _ in emitted), 2),
                                      cmd=emitted[0][0].cmd)
     cases.sort(key=common.canon)
